@@ -485,7 +485,7 @@ def stopBytes (m : Mode) : Bytes :=
 
 /-- The bytes operation `o` asks to be output when the mode is `m`. -/
 def requested (m : Mode) : Op → Bytes
-  | .printn mem len => effective mem len
+  | .printn mem len => printnBytes mem len
   | .print mem => cstr mem
   | .printf mem d => render printfFmt [d] [mem]
   | .title mem => render title_fmt [] [mem]
@@ -751,7 +751,12 @@ def IsConfig : Op → Prop
 theorem step_ext {st st' : State} {o : Op} (hwf : WF st) (hnc : ¬ IsConfig o) (h : step st o = .ok st') :
     ExtM st st' (requested st.mode o) (nextMode st.mode o) := by
   cases o with
-  | printn mem len => exact writeStr_ext hwf h
+  | printn mem len =>
+    simp only [step, termPrintn] at h
+    simp only [requested, printnBytes, nextMode]
+    by_cases hz : printn_zero_len_returns = true ∧ len = 0
+    · rw [if_pos hz] at h ⊢; injection h with h; subst h; exact Ext.refl hwf
+    · rw [if_neg hz] at h ⊢; exact writeStr_ext hwf h
   | print mem =>
     simp only [step, termPrint] at h
     split at h
@@ -1060,7 +1065,11 @@ theorem termTeardown_total {st : State} (hwf : WF st) : ∃ st', termTeardown st
     (`outbuffer_cur ≤ outbuffer_len` is never violated) or loops for ever. -/
 theorem step_ok {st : State} {o : Op} (hwf : WF st) (hok : OpOK o) : ∃ st', step st o = .ok st' := by
   cases o with
-  | printn mem len => exact writeStr_total hwf hok
+  | printn mem len =>
+    simp only [step, termPrintn]
+    split
+    · exact ⟨st, rfl⟩
+    · exact writeStr_total hwf hok
   | print mem =>
     simp only [step, termPrint]
     have hk : mem.contains 0 = true := hok
